@@ -72,6 +72,9 @@ type Contract struct {
 	Reader            bool // reads the invariant's state only; its callers need no contract
 	InlineOwn         bool
 	ModularFor        []string // used by contract only when one of these functions is under verification
+	Iterates          string             // callback parameter this function calls once per element of a store range (and does nothing else to the state)
+	CallbackExits     map[string]*Clause // callee key -> what holds when the callback stops the loop (default: the invariant)
+	CallbackInvs      map[string]*Clause // callee key -> inductive invariant of the loop that callee runs over this function's callback
 	LoopBounded       bool     // loops cut at the unrolling bound are accepted; the obligations are labelled bounded
 	CallersAssumed    string
 	CallersAssumedFor map[string]string
@@ -550,6 +553,33 @@ func (ss *SpecSet) directive(cur **Contract, pkgPath, file string, ln int, body 
 		// every run of at most the unrolling bound iterations and labelled BOUNDED (not a proof
 		// beyond the bound); meant for frames of loops whose iterations all do the same thing
 		(*cur).LoopBounded = true
+	case "iterates":
+		// iterates <param>: the function reads a store range and calls the function value handed in
+		// as <param> once per element, until it answers true; it writes nothing itself. A caller whose
+		// contract carries a `callback-invariant` for this function is verified against that
+		// invariant (base, step for an arbitrary element, use after the loop) instead of unrolling.
+		(*cur).Iterates = strings.TrimSpace(rest)
+	case "callback-invariant", "callback-exit":
+		// callback-invariant <CalleeKey> :: <name>: <expr over parameters, old(...) and the callback's captured variables>
+		f := strings.SplitN(rest, "::", 2)
+		if len(f) != 2 || *cur == nil {
+			return fail(fmt.Errorf("callback-invariant <CalleeKey> :: <name>: <expr>"))
+		}
+		key := strings.TrimSpace(f[0])
+		rest = strings.TrimSpace(f[1])
+		c, err := clause()
+		if err != nil {
+			return fail(err)
+		}
+		if (*cur).CallbackInvs == nil {
+			(*cur).CallbackInvs = map[string]*Clause{}
+			(*cur).CallbackExits = map[string]*Clause{}
+		}
+		if word == "callback-exit" {
+			(*cur).CallbackExits[key] = c
+		} else {
+			(*cur).CallbackInvs[key] = c
+		}
 	case "modular-for":
 		// modular-for <FuncKey>, <FuncKey>: the contract (with its modifies clause) stands in
 		// for the body only while one of the named functions is verified; everywhere else the
